@@ -113,9 +113,10 @@ Proof. exact callee_leaves_chain_intact. Qed.
 Print Assumptions C10_callee_leaves_callers_chain_intact.
 
 (* the two assumptions of that model, read from the source on every run: chain records are received by value (never
-   through a pointer, never with their address taken) and every write to a chain is `x.f = append(x.f, e)` *)
+   through a pointer, never with their address taken), every chain starts as an array of its own (`make`, or nil) and
+   every later write to a chain is `x.f = append(x.f, e)` *)
 Theorem C10_chain_discipline_in_source :
-  forallb (fun w => String.eqb (snd w) "append-self") chain_writes_src &&
+  forallb (fun w => String.eqb (snd w) "append-self" || String.eqb (snd w) "fresh") chain_writes_src &&
   forallb (fun w => String.eqb (snd w) "value") chain_headers_src = true.
 Proof. exact chain_discipline_in_source. Qed.
 Print Assumptions C10_chain_discipline_in_source.
